@@ -12,3 +12,5 @@ GUARDS = [
      "(capacity <=? size)"),
 ]
 MACROS = []
+# (coq name, file, function, [parameters]): straight-line functions translated as a whole
+FUNCS = [("f_ht_round_pow_two", "src/cc_hashtable.c", "round_pow_two", ["n"])]
